@@ -27,20 +27,21 @@ func capTokens(t []string) []string {
 }
 
 type outLine struct {
-	A      string          `json:"a"`
-	ID     string          `json:"id"`
-	Abs    interface{}     `json:"abs,omitempty"`
-	NW     int             `json:"nw"`
-	Tokens []string        `json:"tokens"`
-	Keys   []prog.KeyAt    `json:"keys"`
-	CTok   []string        `json:"ctokens"` // tokens / keys with opaque member values collapsed to one V
-	CKeys  []prog.KeyAt    `json:"ckeys"`
-	Raw    prog.Raw        `json:"raw"`
-	Valid  bool            `json:"gojson"` // cross-check: encoding/json accepts the line
-	Hooks  []prog.HookCall `json:"hooks"`
-	Levels []int           `json:"levels"`
-	Panic  string          `json:"panic"`
-	Out    string          `json:"out,omitempty"`
+	A         string          `json:"a"`
+	ID        string          `json:"id"`
+	Abs       interface{}     `json:"abs,omitempty"`
+	NW        int             `json:"nw"`
+	Tokens    []string        `json:"tokens"`
+	Keys      []prog.KeyAt    `json:"keys"`
+	CTok      []string        `json:"ctokens"` // tokens / keys with opaque member values collapsed to one V
+	CKeys     []prog.KeyAt    `json:"ckeys"`
+	Raw       prog.Raw        `json:"raw"`
+	Valid     bool            `json:"gojson"` // cross-check: encoding/json accepts the line
+	Hooks     []prog.HookCall `json:"hooks"`
+	HookMsgOK bool            `json:"hookmsgok"` // every hook received the event's final message
+	Levels    []int           `json:"levels"`
+	Panic     string          `json:"panic"`
+	Out       string          `json:"out,omitempty"`
 	// binary_log build only
 	Heads   []prog.Head  `json:"heads,omitempty"` // RFC 8949 heads found by the independent scanner
 	Item    *prog.Item   `json:"item,omitempty"`  // the event decoded by the independent generic decoder
@@ -125,6 +126,16 @@ func main() {
 			ol.Valid = json.Valid(body)
 			if *withBytes {
 				ol.Out = base64.StdEncoding.EncodeToString(out)
+			}
+		}
+		wantMsg := string(p.Msg)
+		if p.Fin == "Send" {
+			wantMsg = ""
+		}
+		ol.HookMsgOK = true
+		for _, h := range res.Hooks {
+			if h.Msg != wantMsg {
+				ol.HookMsgOK = false
 			}
 		}
 		ol.Tokens, ol.CTok, ol.DTok = capTokens(ol.Tokens), capTokens(ol.CTok), capTokens(ol.DTok)
